@@ -74,6 +74,22 @@ theorem C18_await_by_timeout {α : Type} (f : Fut α) (arrival : Option (Nat × 
 theorem C18_respond_once {α : Type} (f : Fut α) (v w : α) : (f.respond v).respond w = f.respond v := by
   cases hb : f.buf <;> simp [Fut.respond, hb]
 
+/-- A second `Await` on the same future, entered `d` time units after the first. `Await` holds
+    the future's mutex while it waits (fix S33), so the second caller proceeds when the first has
+    returned and finds the cached result: same result; its own waiting time is what was left of the
+    first caller's. (Before the fix both callers raced for the channel and for the cache: the loser
+    reported a timeout for an operation that had succeeded.) -/
+def Fut.awaitSecond {α : Type} (f : Fut α) (arrival : Option (Nat × α)) (d : Nat) : Option α × Nat :=
+  ((f.await arrival).1, (f.await arrival).2 - d)
+
+theorem C18_second_awaiter_same_result_by_timeout {α : Type} (f : Fut α) (arrival : Option (Nat × α)) (d : Nat) :
+    (f.awaitSecond arrival d).1 = (f.await arrival).1 ∧ (f.awaitSecond arrival d).2 ≤ f.timeout := by
+  refine ⟨rfl, ?_⟩
+  have := C18_await_by_timeout f arrival
+  unfold Fut.awaitSecond
+  simp only
+  omega
+
 /-! ### Sections behind the API never abort -/
 
 theorem sendAEToPeers_no_fatal (n : Node) (now : Nat) :
